@@ -74,6 +74,70 @@ def collect():
     s = ast.unparse(gt)
     f["getTrustedIsCallerPlusDefault"] = "if trusted is None:" in s and "return get_type_paths(default)" in s \
         and "return get_type_paths(trusted) + get_type_paths(default)" in s
+    # ---- dump side (C06, C12, C18) --------------------------------------------------------------------
+    gs = fn(utils, "get_state")
+    body = [ast.unparse(b) for b in gs.body if not (isinstance(b, ast.Expr) and isinstance(b.value, ast.Constant))]
+    f["getStateMemoizesFirst"] = body[:1] == ["__id__ = save_context.memoize(obj=value)"] and \
+        "res = _get_state(value, save_context)" in body and body.index("res = _get_state(value, save_context)") > 0
+    f["idFromMemoize"] = "res['__id__'] = __id__" in body and body[-1] == "return res"
+    sc_mem = None
+    for n in ast.walk(utils):
+        if isinstance(n, ast.ClassDef) and n.name == "SaveContext":
+            sc_mem = ast.unparse(fn(n, "memoize"))
+    f["memoizeKeepsReference"] = sc_mem is not None and "obj_id = id(obj)" in sc_mem and "self.memo[obj_id] = obj" in sc_mem \
+        and "return obj_id" in sc_mem
+    scipy_src = ast.unparse(ast.parse((REPO / "skops/io/_scipy.py").read_text()))
+    numpy_u = ast.unparse(ast.parse(numpy_src))
+    f["memberNameFromMemoize"] = "obj_id = save_context.memoize(obj)\n            f_name = f'{obj_id}.npy'" in numpy_u \
+        and "obj_id = save_context.memoize(obj)\n    f_name = f'{obj_id}.npz'" in scipy_src
+    f["memberWrittenOnce"] = numpy_u.count("if f_name not in save_context.zip_file.namelist():") == 1 \
+        and scipy_src.count("if f_name not in save_context.zip_file.namelist():") == 1 \
+        and numpy_u.count("writestr(") == 1 and scipy_src.count("writestr(") == 1
+    sv = fn(persist, "_save")
+    seq = calls_in_order(sv)
+    all_io = "".join((REPO / "skops/io" / n).read_text() for n in ("_persist.py", "_general.py", "_numpy.py", "_scipy.py", "_sklearn.py", "_utils.py", "_quantile_forest.py"))
+    f["clearMemoAfterGetState"] = before(seq, "get_state", "save_context.clear_memo") and all_io.count("clear_memo()") == 1
+    f["saveWritesOnlyBuffer"] = before(seq, "io.BytesIO", "ZipFile") and "open" not in seq and \
+        ast.unparse(sv.body[-1]) == "return buffer"
+    for name in ("dump", "dumps"):
+        fd = fn(persist, name)
+        seq = calls_in_order(fd)
+        f[f"{name}SavesFirst"] = seq[0] == "_save" and seq.count("_save") == 1
+    dseq = calls_in_order(fn(persist, "dump"))
+    f["dumpOpensAfterSave"] = before(dseq, "_save", "open") and before(dseq, "_save", "file.write")
+    f["schemaCarriesProtocolAndVersion"] = "state['protocol'] = save_context.protocol" in ast.unparse(sv) \
+        and "state['_skops_version'] = skops.__version__" in ast.unparse(sv) \
+        and "zip_file.writestr('schema.json', json.dumps(state, indent=2))" in ast.unparse(sv)
+    # every registered *_get_state returns a dict carrying __class__, __module__, __loader__ (get_state adds __id__)
+    import re as _re
+    header_ok, member_names = True, []
+    funcs = {}
+    for fname in ("_general.py", "_numpy.py", "_scipy.py", "_sklearn.py", "_quantile_forest.py"):
+        tree = ast.parse((REPO / "skops/io" / fname).read_text())
+        for n in ast.walk(tree):
+            if isinstance(n, ast.FunctionDef) and n.name.endswith("_get_state") and n.name != "unsupported_get_state":
+                funcs[n.name] = n
+    partial_fns = set()
+    for name, n in funcs.items():
+        src = ast.unparse(n)
+        if all(f"'{k}'" in src for k in ("__class__", "__module__")) and "'__loader__'" not in src:
+            partial_fns.add(name)          # builds the header without the loader: its callers must add it
+    for name, n in funcs.items():
+        src = ast.unparse(n)
+        callees = {c.func.id for c in ast.walk(n) if isinstance(c, ast.Call) and isinstance(c.func, ast.Name)
+                   and c.func.id.endswith("_get_state") and c.func.id != name and c.func.id != "get_state"}
+        has = all(f"'{k}'" in src for k in ("__class__", "__module__", "__loader__"))
+        if name in partial_fns:
+            continue
+        if callees & partial_fns and "['__loader__'] =" not in src:
+            header_ok = False
+        if not (has or callees):
+            header_ok = False
+        for c in ast.walk(n):
+            if isinstance(c, ast.Assign) and len(c.targets) == 1 and ast.unparse(c.targets[0]) == "f_name":
+                member_names.append(ast.unparse(c.value))
+    f["allGetStateHaveHeader"] = header_ok
+    f["memberNamesFlat"] = sorted(member_names) == sorted(["f'{obj_id}.npy'", "f'{obj_id}.npz'", "f'{uuid.uuid4()}.bin'"])
     imp = fn(utils, "_import_obj")
     f["importObjIsGetattrOfImport"] = ast.unparse(imp.body[-1]) == \
         "return getattr(importlib.import_module(module, package=package), cls_or_func)"
